@@ -57,6 +57,7 @@ type env struct {
 	P        map[uint64]bool
 	anchored bool // a chain exists: something was appended since creation / the last whole-chain delete
 	started  bool
+	coarse   bool // collapse the sub-clauses of "still there" into one signature
 }
 
 func newChain(n int) *vh.Chain {
